@@ -84,7 +84,9 @@ def stmts(n, ctx):
     for cnt in (0, 1, 2):
         for b in blocks(body_n, lsub):
             out.append(('repeat', ('count', ('num', cnt)), b))
-    var = 'i%d' % depth
+    # loop variables of routine bodies get their own names: a routine's loop over a name that is also a
+    # caller's (global) loop variable would overwrite it, and the manual does not say what the caller's loop then does
+    var = ('j%d' if in_routine else 'i%d') % depth
     rsub = (True, in_routine, callables, var, depth + 1, ext)
     for a, bnd in ((1, 2), (2, 1)):
         for b in blocks(body_n, rsub):
